@@ -29,6 +29,9 @@ def plan_runs(prop, scenario, flags, ts, cfg):
         return [dict(base, name="t1"), b2]
     if scenario == "history":        # call 1 at t1, call 2 at t2 on the same Shaper, and a fresh Shaper at t2
         return [dict(base, name="first-call", keep=True), dict(base, t=ts[1], name="second-call-same-shaper", reuse=0), dict(base, t=ts[1], name="fresh-shaper")]
+    if scenario.startswith("history+"):   # as "history", but in the real pipeline of the witness other public calls are made on the Shaper between the two calls
+        return [dict(base, name="first-call", keep=True), dict(base, t=ts[1], name="second-call-same-shaper", reuse=0, real_pre_calls=tuple(scenario[8:].split("+"))),
+                dict(base, t=ts[1], name="fresh-shaper")]
     if scenario == "repeat":         # the same call twice on one Shaper
         return [dict(base, name="first-call", keep=True), dict(base, name="second-call-same-shaper", reuse=0)]
     if scenario == "ignore-ns":      # namespaces_to_ignore = deleting those triples from the input (class membership still from the full graph)
@@ -89,7 +92,7 @@ def run_obligation(res, prop, st_name, N, findings, scenario="single", cfg=None)
     cfg = dict(cfg or {})
     st = _structure(st_name)
     fixed = dict(cfg.get("fixed_flags", {}))
-    n_thr = 2 if scenario in ("two-thresholds", "history") else 1
+    n_thr = 2 if scenario in ("two-thresholds", "history") or scenario.startswith("history+") else 1
     fixed_thr = cfg.get("fixed_threshold")
     active = {f["id"] for f in findings if f.get("status") != "fixed" and f.get("family") == "stage"}
     ex = Explorer(max_paths=cfg.get("max_paths", 60000), path_ops=10 ** 7, path_wall_s=120)
@@ -223,7 +226,7 @@ def run_obligation(res, prop, st_name, N, findings, scenario="single", cfg=None)
                 kept = [] if r.get("keep") else None
                 reuse = reals[r["reuse"]].get("shaper") if r.get("reuse") is not None else None
                 with shims.real_code():
-                    rt, rs = T.run_real_pipeline(doc, r["flags"], thr, r["report_mode"], r["decimals"], r["or_flags"], r["want_shacl"], extra, reuse=reuse, keep=kept)
+                    rt, rs = T.run_real_pipeline(doc, r["flags"], thr, r["report_mode"], r["decimals"], r["or_flags"], r["want_shacl"], extra, reuse=reuse, keep=kept, pre_calls=r.get("real_pre_calls", ()))
                 reals.append(dict(tag="OK", text=rt, shacl=rs, thr=thr, run=r, shaper=kept[0] if kept else None))
             except Exception as e:  # noqa
                 reals.append(dict(tag="EXC", text=None, shacl=None, thr=thr, run=r, err=type(e).__name__))
@@ -320,7 +323,7 @@ def replay(args):
         try:
             kept = [] if r.get("keep") else None
             reuse = reals[r["reuse"]].get("shaper") if r.get("reuse") is not None else None
-            rt, rs = T.run_real_pipeline(doc, r["flags"], r["t"], r["report_mode"], r["decimals"], r["or_flags"], r["want_shacl"], extra, reuse=reuse, keep=kept)
+            rt, rs = T.run_real_pipeline(doc, r["flags"], r["t"], r["report_mode"], r["decimals"], r["or_flags"], r["want_shacl"], extra, reuse=reuse, keep=kept, pre_calls=r.get("real_pre_calls", ()))
         except Exception as e:  # noqa
             print("extraction raised %s: %s [run %s]\ndocument:\n%s" % (type(e).__name__, e, r["name"], doc))
             return True
